@@ -2231,7 +2231,7 @@ fn plan_mutations(rng: &mut Rng, slot: &mut CSlot, dim: usize, n: usize) -> Vec<
             if coll { 0 } else { 10 }, // 4 batch store (new + overwritten keys)
             if (!coll || (slot.created && slot.metric == Metric::Cos)) && !plan.iter().any(|m| matches!(m, CMut::Clear)) { 3 } else { 0 }, // 5 clear
         ]);
-        let mut fresh_key = |slot: &mut CSlot| {
+        let fresh_key = |slot: &mut CSlot| {
             slot.next_key += 1;
             format!("k{}", slot.next_key - 1)
         };
@@ -2650,6 +2650,34 @@ fn run_concurrent(case_seed: u64, r: &mut Report, verbose: bool, thorough: bool)
 // `--probe 1`: the minimal witnesses of the defects this monitor found, run against the real code
 // ------------------------------------------------------------------------------------------------
 
+fn probe_build_race() {
+    // not judged by the check (see part `concurrent`): build_and_cache_index racing with a store
+    let mut stale = 0;
+    let rounds = 200;
+    for round in 0..rounds {
+        let e = VectorEngine::new();
+        for i in 0..200 {
+            e.store_embedding(&format!("k{}", i), (0..8).map(|j| ((i * 7 + j * 3 + round) % 11) as f32 - 5.0).collect()).unwrap();
+        }
+        let newv = vec![9.0f32, -9.0, 9.0, -9.0, 1.0, 2.0, 3.0, 4.0];
+        std::thread::scope(|s| {
+            s.spawn(|| e.build_and_cache_index(HNSWConfig::default()).unwrap());
+            s.spawn(|| {
+                for _ in 0..(round % 20) * 50 {
+                    std::hint::spin_loop();
+                }
+                e.store_embedding("new", newv.clone()).unwrap()
+            });
+        });
+        // both calls have returned
+        let top = e.search_similar(&newv, 10).unwrap();
+        if !top.iter().any(|r| r.key == "new") {
+            stale += 1;
+        }
+    }
+    println!("10 build_and_cache_index() || store_embedding(new); join; search_similar(new vector, 10) does not contain \"new\" in {} of {} rounds", stale, rounds);
+}
+
 fn probes() {
     let show = |r: vector_engine::Result<Vec<SearchResult>>| match r {
         Ok(v) => fmt_res(&v),
@@ -2765,6 +2793,10 @@ fn main() {
     }
     let scratch_base = args.scratch.clone();
     if args.extra.contains_key("probe") {
+        if args.extra_u64("probe", 0) == 10 {
+            probe_build_race();
+            return;
+        }
         probes();
         return;
     }
@@ -2815,8 +2847,8 @@ fn main() {
         // development aid: the concurrent part alone (floors of the other parts will be unmet)
         only_concurrent = true;
         let thorough = !args.quick();
-        let n = args.by_tier(160u64, 6_000u64);
-        let rep = par_cases((args.threads / 4).max(2), args.seed ^ 0xCC, n, args.budget(12, 240), |_i, s, r| guarded("concurrent", s, r, |r| run_concurrent(s, r, false, thorough)));
+        let n = args.by_tier(120u64, 4_000u64);
+        let rep = par_cases((args.threads / 4).max(2), args.seed ^ 0xCC, n, args.budget(12, 150), |_i, s, r| guarded("concurrent", s, r, |r| run_concurrent(s, r, false, thorough)));
         total.merge(rep);
     } else {
         let n = args.by_tier(6_000u64, 400_000u64);
@@ -2831,8 +2863,8 @@ fn main() {
         total.merge(rep);
         // each case runs 2-5 searcher threads and 1-2 mutator threads of its own
         let thorough = !args.quick();
-        let n = args.by_tier(160u64, 6_000u64);
-        let rep = par_cases((args.threads / 4).max(2), args.seed ^ 0xCC, n, args.budget(12, 240), |_i, s, r| guarded("concurrent", s, r, |r| run_concurrent(s, r, false, thorough)));
+        let n = args.by_tier(120u64, 4_000u64);
+        let rep = par_cases((args.threads / 4).max(2), args.seed ^ 0xCC, n, args.budget(12, 150), |_i, s, r| guarded("concurrent", s, r, |r| run_concurrent(s, r, false, thorough)));
         total.merge(rep);
     }
 
